@@ -4,6 +4,20 @@ TRUSTED = ("CPython ast/symtable; the analyzer's CFG construction and resolution
            "self-test); reference tables written from the property statement; no value-level semantics are decided")
 
 CLAIMS = {
+    "C03": {
+        "text": "Label-coherence analysis of the coverage phase in the current source: for each of the Case constructions "
+                "of _iter_coverage_cases (def-use from the template call that produced `data`) the case-level mode, "
+                "description and location are read from the very value put into the template, and structural negatives "
+                "(unspecified method, duplicated / removed parameter) are labelled NEGATIVE at case and component level; "
+                "in coverage.py every _positive_* generator yields only PositiveValue and every _negative_* only "
+                "NegativeValue, negative helpers recurse with a negative context, each polarity sits under its mode test; "
+                "numeric bounds read with .get() are never tested by truthiness next to a comparison; every "
+                "description prefix a check tests for is produced by some producer. Not decided: validity of each boundary "
+                "value (arithmetic such as multipleOf rounding, regex generation) - value level.",
+        "design_ref": "DESIGN.md §4 C03",
+        "note": TRUSTED,
+        "technique": "def-use label/source coherence per Case construction, yield-discipline lint over generator families, bound-presence idiom (contradiction rule), producer/consumer string protocol",
+    },
     "C04": {
         "text": "Sibling-agreement / must-pass / error-discipline analysis of the conformance checks in the current "
                 "source: every function that picks a response definition from the received status goes through the "
